@@ -29,7 +29,7 @@ const SPECIAL_ZM: [i32; 6] = [-8, -7, -6, ND, -4, NANV];
 pub fn gen_point(r: &mut Rng, t: i32, g: &GenCfg) -> APoint {
     let x = r.range(-g.xy_span as i64, g.xy_span as i64) as i32;
     let y = r.range(-g.xy_span as i64, g.xy_span as i64) as i32;
-    let mut zm = |r: &mut Rng| -> i32 {
+    let zm = |r: &mut Rng| -> i32 {
         if r.chance(g.special_pct, 100) {
             *r.pick(&SPECIAL_ZM)
         } else {
